@@ -74,10 +74,10 @@ template<class T, class C> struct KllFam {
 template<class T, class C> struct ReqFam {
   typedef req_sketch<T, C> Sk; typedef T Item; typedef C Cmp;
   static const char* fam() { return "req"; }
-  static Sk* make(const Cfg& c) {
-    mc::Tape t; t.bit_fill = (uint64_t)c.init_coin; mc::TapeScope sc(t);   // the compactor constructor draws one coin
-    return new Sk((uint16_t)c.k, c.hra);
-  }
+  // the compactor constructor draws one fair coin: construction therefore happens lazily inside the first operation that touches
+  // the sketch, under the explorer's tape, so that this coin is enumerated like every other one (it matters after merges,
+  // when an odd compaction counter is inherited and the next compaction uses the complement of the stored coin)
+  static Sk* make(const Cfg& c) { return new Sk((uint16_t)c.k, c.hra); }
   static std::string canon(const Sk& s) {
     std::string o = "k" + str(s.k_) + "h" + str(s.hra_) + "n" + str(s.n_) + "r" + str(s.num_retained_) + "M" + str(s.max_nom_size_) + "{";
     for (size_t l = 0; l < s.compactors_.size(); ++l) {
@@ -174,15 +174,16 @@ struct QuantSys {
   std::string name() const { return nm; }
   size_t nops() const { return ops.size(); }
   std::string opname(size_t i) const { return ops[i].name; }
-  State* make() {
+  State* make() {   // sketches are constructed lazily (see ReqFam::make)
     State* s = new State; s->slots.resize(slot_cfgs.size());
-    for (size_t i = 0; i < slot_cfgs.size(); ++i) { s->slots[i].cfg = slot_cfgs[i]; s->slots[i].min_k = slot_cfgs[i].k; s->slots[i].sk.reset(Fam::make(slot_cfgs[i])); }
+    for (size_t i = 0; i < slot_cfgs.size(); ++i) { s->slots[i].cfg = slot_cfgs[i]; s->slots[i].min_k = slot_cfgs[i].k; }
     return s;
   }
+  static void ensure(Slot& sl) { if (!sl.sk) sl.sk.reset(Fam::make(sl.cfg)); }
   // deep copy through the sketches' copy constructors (used by mc::LiveTree, which validates every clone against canon)
   State* clone(State& st) {
     State* c = new State; c->slots.resize(st.slots.size());
-    for (size_t i = 0; i < st.slots.size(); ++i) { c->slots[i].cfg = st.slots[i].cfg; c->slots[i].min_k = st.slots[i].min_k; c->slots[i].model = st.slots[i].model; c->slots[i].sk.reset(new Sk(*st.slots[i].sk)); }
+    for (size_t i = 0; i < st.slots.size(); ++i) { c->slots[i].cfg = st.slots[i].cfg; c->slots[i].min_k = st.slots[i].min_k; c->slots[i].model = st.slots[i].model; if (st.slots[i].sk) c->slots[i].sk.reset(new Sk(*st.slots[i].sk)); }
     return c;
   }
   Sk* build_operand(const OperandSpec& sp, std::vector<T>& model, int* min_k = nullptr) {
@@ -208,18 +209,21 @@ struct QuantSys {
     if (o.kind == 'U') {
       Slot& s = st.slots[o.a];
       if ((int)s.model.size() >= max_n) return false;
+      ensure(s);
       if (o.b == (int)vals.size()) { s.sk->update(Dom<T>::nan()); return true; }
       s.sk->update(vals[o.b]); s.model.push_back(vals[o.b]); return true;
     }
     if (o.kind == 'Q') {
       Slot& s = st.slots[o.a];
       if (s.model.empty()) return false;
+      ensure(s);
       s.sk->get_rank(vals[0]);   // builds and caches the sorted view; answers are checked in check()
       return true;
     }
     if (o.kind == 'M' || o.kind == 'R') {
       Slot& s = st.slots[o.a]; Slot& t = st.slots[o.b];
       if ((int)(s.model.size() + t.model.size()) > max_n) return false;
+      ensure(s); ensure(t);
       if (t.sk->is_estimation_mode()) s.min_k = std::min(s.min_k, t.min_k);
       if (o.kind == 'M') {
         std::string before = Fam::canon(*t.sk);
@@ -235,7 +239,8 @@ struct QuantSys {
     }
     // menu operand
     const OperandSpec& sp = menu[o.a]; Slot& s = st.slots[0];
-    if ((int)(s.model.size() + sp.vals.size()) > max_n) return false;
+    if ((int)(s.model.size() + sp.vals.size() + sp.vals2.size()) > max_n) return false;
+    ensure(s);
     std::vector<T> om; int omk = sp.cfg.k; std::unique_ptr<Sk> b(build_operand(sp, om, &omk));
     if (o.b == 2) { const int mine = s.sk->is_estimation_mode() ? s.min_k : 1 << 30; s.min_k = std::min(omk, mine); }
     else if (b->is_estimation_mode()) s.min_k = std::min(s.min_k, omk);
@@ -248,7 +253,7 @@ struct QuantSys {
   std::string canon(State& st) {
     std::string c;
     for (size_t i = 0; i < st.slots.size(); ++i) {
-      c += "S" + str(i) + ":" + Fam::canon(*st.slots[i].sk) + "#mk" + str(st.slots[i].min_k) + "#";
+      c += "S" + str(i) + ":" + (st.slots[i].sk ? Fam::canon(*st.slots[i].sk) : std::string("unconstructed")) + "#mk" + str(st.slots[i].min_k) + "#";
       std::vector<T> m = st.slots[i].model; std::sort(m.begin(), m.end(), C());
       for (size_t j = 0; j < m.size(); ++j) c += Dom<T>::s(m[j]) + ",";
     }
@@ -379,9 +384,9 @@ struct QuantSys {
     c.rep.outcome(std::string(Fam::fam()) + (exact ? "|exact" : "|estimating") + "|levels" + str(lv.empty() ? 0 : (int)std::log2((double)lv.back().second)));
   }
   void check(State& st, mc::Ctx& c) {
-    if (check_published) for (size_t i = 0; i < st.slots.size(); ++i) if (!st.slots[i].model.empty()) Fam::check_published_error(*st.slots[i].sk, st.slots[i].min_k, c);   // C08: the error a sketch publishes
+    if (check_published) for (size_t i = 0; i < st.slots.size(); ++i) if (st.slots[i].sk && !st.slots[i].model.empty()) Fam::check_published_error(*st.slots[i].sk, st.slots[i].min_k, c);   // C08: the error a sketch publishes
     if (light_check) return;
-    for (size_t i = 0; i < st.slots.size(); ++i) check_slot(*st.slots[i].sk, st.slots[i].model, c);
+    for (size_t i = 0; i < st.slots.size(); ++i) if (st.slots[i].sk) check_slot(*st.slots[i].sk, st.slots[i].model, c);
   }
 };
 
